@@ -710,7 +710,7 @@ pub fn run(args: &Args) -> i32 {
         exhaustive_case(check, i, &reduced, d + 1, 2)
     });
     check.note("exhaustive", json!(format!("partly: all {n1} sequences of length {d} over {} ops (bucket_size 1) and all {n2} of length {} over {} ops (bucket_size 2)", full.len(), d + 1, reduced.len())));
-    let n = if tiny { 10 } else { args.tier.pick(20_000, 1_000_000) };
+    let n = if tiny { 10 } else { args.tier.pick(20_000, 500_000) };
     vmon::par_cases(check, n, args.threads, |_i, rng| {
         arm(&dog);
         prng_case(check, rng)
